@@ -104,6 +104,8 @@ type c06in struct {
 	AtoMS     int64     `json:"ato_ms,omitempty"`
 	AtoGeSeg  bool      `json:"ato_ge_segment,omitempty"` // availabilityTimeOffset >= shortest segment duration
 	TsbdLtSeg bool      `json:"tsbd_lt_segment,omitempty"` // time-shift buffer shorter than the longest segment
+	StopS     int64     `json:"stop_s,omitempty"`          // stop time (absolute, s); 0: none
+	StopRel   bool      `json:"stop_rel,omitempty"`        // written as stoprel_<StopS - now/1000>
 	NowMS     int64     `json:"now_ms,omitempty"`
 	URLSingle string    `json:"url_single,omitempty"`
 	URLMulti  string    `json:"url_multi,omitempty"`
@@ -207,6 +209,13 @@ type mpdSpec struct {
 func prefix(in c06in, multi bool) string {
 	cfg := lib.TLCfg{StartS: in.StartS, Snr: in.Snr, Tsbd: in.Tsbd, Mode: in.Mode, AtoMS: in.AtoMS}
 	p := in.Extra + cfg.URLPrefix()
+	if in.StopS > 0 {
+		if in.StopRel {
+			p = fmt.Sprintf("stoprel_%d/", in.StopS-in.NowMS/1000) + p
+		} else {
+			p = fmt.Sprintf("stop_%d/", in.StopS) + p
+		}
+	}
 	if multi {
 		p = fmt.Sprintf("periods_%d/", in.PPH) + p
 		if in.Cont {
@@ -225,6 +234,14 @@ func segURL(in c06in, multi bool, media, repID string, nr int64, t uint64) strin
 	u = strings.ReplaceAll(u, "$Number$", strconv.FormatInt(nr, 10))
 	u = strings.ReplaceAll(u, "$Time$", strconv.FormatUint(t, 10))
 	return fmt.Sprintf("/livesim2/%s%s/%s?nowMS=%d", prefix(in, multi), in.Asset, u, in.NowMS)
+}
+
+// endMS: the instant the MPD is generated for - the stop time once it has passed.
+func endMS(in c06in) int64 {
+	if in.StopS > 0 && in.StopS*1000 < in.NowMS {
+		return in.StopS * 1000
+	}
+	return in.NowMS
 }
 
 type xseg struct {
@@ -257,6 +274,7 @@ type liveRun struct {
 	c        *lib.Ctx
 	ls       *lib.Livesim
 	stable   map[string]int64 // asset|mpd|pph|id -> start (seconds)
+	stopSig  map[string]string
 	distinct map[string]bool
 	fetched  int
 	fetchAll bool
@@ -333,14 +351,20 @@ func (lr *liveRun) oracle(id string, in c06in, a *lib.TLAsset, sm *m.MPD, multi 
 	tsbdMS := int64(0)
 	if sm.TimeShiftBufferDepth != nil {
 		tsbdMS = int64(*sm.TimeShiftBufferDepth) / 1_000_000
+	} else { // static MPD after the stop time: the configured depth still decides which periods exist
+		tsbdMS = 60000
+		if in.Tsbd >= 0 {
+			tsbdMS = in.Tsbd * 1000
+		}
 	}
 	astMS := in.StartS * 1000
-	winStart := in.NowMS - tsbdMS
+	nowEnd := endMS(in)
+	winStart := nowEnd - tsbdMS
 	if winStart < astMS {
 		winStart = astMS
 	}
 	// periods are counted from availabilityStartTime
-	k0, k1 := (winStart-astMS)/(P*1000), (in.NowMS-astMS)/(P*1000)
+	k0, k1 := (winStart-astMS)/(P*1000), (nowEnd-astMS)/(P*1000)
 	// The periods must be consecutive and cover at least [period of the window start, period of now];
 	// they may reach further only as far as a listed segment of the single-period MPD needs its period
 	// (a tree with the repair "period range covers listed segments" does, a tree without it does not).
@@ -393,6 +417,15 @@ func (lr *liveRun) oracle(id string, in c06in, a *lib.TLAsset, sm *m.MPD, multi 
 			lr.fail(id, "adaptation-sets", fmt.Sprintf("period %s has %d adaptation sets, single-period MPD %d", p.Id, len(p.AdaptationSets), len(sm.Periods[0].AdaptationSets)), in)
 			return
 		}
+	}
+	// --- from the stop time on the period layout no longer changes
+	if in.StopS > 0 && in.NowMS >= in.StopS*1000 {
+		key := fmt.Sprintf("%s|%s|%s|%d|%d|%d|%d|%d|%v", in.Asset, in.MPD, in.Mode, in.PPH, in.Tsbd, in.StartS, in.Snr, in.StopS, in.Cont)
+		sig := coqPeriods(mm.Periods)
+		if old, ok := lr.stopSig[key]; ok && old != sig {
+			lr.fail(id, "stop:layout-changed", fmt.Sprintf("the periods (ids, starts, offsets, start numbers, timelines) at nowMS=%d differ from those of an earlier request at or after the stop time %d s", in.NowMS, in.StopS), in)
+		}
+		lr.stopSig[key] = sig
 	}
 	// --- publishTime in $Number$ mode: the instant the newest period began
 	if in.Mode == "number" {
@@ -481,7 +514,7 @@ func (lr *liveRun) oracle(id string, in c06in, a *lib.TLAsset, sm *m.MPD, multi 
 			}
 			// implied segments of this period that have ended: index i (from availabilityStartTime)
 			iLo := k * P * ts / d
-			iHi := (in.NowMS-astMS)*ts/(1000*d) - 1
+			iHi := (nowEnd-astMS)*ts/(1000*d) - 1
 			if e := (k+1)*P*ts/d - 1; e < iHi {
 				iHi = e
 			}
@@ -617,17 +650,33 @@ func (lr *liveRun) live(id int, in c06in, a *lib.TLAsset, inQuantifier bool) (st
 		}
 	}
 	tsbdMS, segMS := int64(0), int64(0)
-	if sm.TimeShiftBufferDepth != nil {
-		tsbdMS = int64(*sm.TimeShiftBufferDepth) / 1_000_000
+	dm := sm
+	if sm.TimeShiftBufferDepth == nil || sm.MinimumUpdatePeriod == nil {
+		// static MPD after the stop time: depth and asset segment duration from the dynamic MPD of the same
+		// configuration without the stop time, at the stop instant
+		in2 := in
+		in2.StopS, in2.NowMS = 0, endMS(in)
+		if r2 := lr.ls.GetRaw(mpdURL(in2, false)); r2.Status == 200 {
+			if d2, err := m.MPDFromBytes(r2.Body); err == nil {
+				dm = d2
+			}
+		}
 	}
-	if sm.MinimumUpdatePeriod != nil {
-		segMS = int64(*sm.MinimumUpdatePeriod) / 1_000_000
+	if dm.TimeShiftBufferDepth != nil {
+		tsbdMS = int64(*dm.TimeShiftBufferDepth) / 1_000_000
+	}
+	if dm.MinimumUpdatePeriod != nil {
+		segMS = int64(*dm.MinimumUpdatePeriod) / 1_000_000
+	}
+	stop := "None"
+	if in.StopS > 0 {
+		stop = fmt.Sprintf("(Some %d)", in.StopS)
 	}
 	snr := in.Snr
 	if snr < 0 {
 		snr = 0
 	}
-	term := fmt.Sprintf("CLive %d %s %s %d %s %s %d %d %d %d\n  [%s]\n  %d %s %s", id, lib.Cbool(widenDetected), lib.Zs(in.PPH), segMS, coqMode(in.Mode), lib.Cbool(in.Cont), in.StartS, snr, in.NowMS, tsbdMS,
+	term := fmt.Sprintf("CLive %d %s %s %d %s %s %d %d %d %s %d\n  [%s]\n  %d %s %s", id, lib.Cbool(widenDetected), lib.Zs(in.PPH), segMS, coqMode(in.Mode), lib.Cbool(in.Cont), in.StartS, snr, in.NowMS, stop, tsbdMS,
 		strings.Join(ases, "; "), status, periods, pub)
 	return term, true
 }
@@ -705,7 +754,7 @@ func run(c *lib.Ctx) error {
 	widenDetected, how = detectWiden()
 	c.Res.Notes = append(c.Res.Notes, "source read: "+how)
 	rng := rand.New(rand.NewSource(c.Seed))
-	lr := &liveRun{c: c, ls: ls, stable: map[string]int64{}, distinct: map[string]bool{}, rng: rng}
+	lr := &liveRun{c: c, ls: ls, stopSig: map[string]string{}, stable: map[string]int64{}, distinct: map[string]bool{}, rng: rng}
 
 	if c.Replay != "" {
 		in, err := lib.LoadReplayInput[c06in](c.Replay)
@@ -967,6 +1016,54 @@ func run(c *lib.Ctx) error {
 							}
 							id++
 						}
+					}
+				}
+			}
+		}
+	}
+	// stop time (stop_/stoprel_) crossed with periods: request instants before, at and after the stop time;
+	// the period layout must equal the split of the single-period MPD and stay the same after the stop
+	nS := 1
+	if c.Thorough() {
+		nS = 5
+	}
+	for _, sp := range []struct{ path, mpd string }{{"testpic_2s", "Manifest.mpd"}, {"testpic_2s", "Manifest_thumbs.mpd"}, {"testpic_8s", "Manifest.mpd"}, {"testpic_2s", "Manifest_imsc1.mpd"}} {
+		a := byPath[sp.path]
+		N := int64(len(a.Ref().Segs))
+		segMS := (a.RefDur*1000 + a.RefTS*N/2) / (a.RefTS * N)
+		for _, pph := range []int64{60, 30, 300} {
+			P := 3600 / pph
+			for _, mode := range modes {
+				for k := 0; k < nS; k++ {
+					startS, snr := int64(0), int64(-1)
+					switch rng.Intn(4) {
+					case 0:
+						startS = 1000
+					case 1:
+						snr = 5
+					}
+					K := int64(3 + rng.Intn(20))
+					stopOffs := []int64{0, 1, P / 2, P - 1, segMS / 1000, 7}
+					stopS := startS + K*P + stopOffs[rng.Intn(len(stopOffs))]
+					cont := rng.Intn(2) == 0
+					rel := rng.Intn(4) == 0
+					for _, off := range []int64{-2*segMS - 1, -1, 0, 1, segMS, 70000, P*1000 + 1, 3600000} {
+						in := c06in{Kind: "live", Asset: sp.path, MPD: sp.mpd, Mode: mode, PPH: pph, Tsbd: -1, Snr: snr, StartS: startS, Cont: cont,
+							StopS: stopS, StopRel: rel, NowMS: stopS*1000 + off, Instant: "stop"}
+						lr.fetchAll = false
+						term, ok := lr.live(id, in, a, true)
+						switch {
+						case off < 0:
+							c.Count("live/" + mode + "/before-stop")
+						case off == 0:
+							c.Count("live/" + mode + "/at-stop")
+						default:
+							c.Count("live/" + mode + "/after-stop")
+						}
+						if ok {
+							terms = append(terms, term)
+						}
+						id++
 					}
 				}
 			}
